@@ -1,12 +1,63 @@
 import FimVerif.Drivers.TopoRun
-import FimVerif.Proofs.Lemmas.TopoInv
-/-! C07 driver: the shared interpreter of `Model/Topo.lean` plus `{"op":"inv"}`, which evaluates every conjunct of
-`Topo.Inv` (Proofs/Lemmas/TopoInv.lean) on the current model state. -/
-open Lean FimVerif FimVerif.Proto
+import FimVerif.Proofs.C07
+/-! C07 driver: the shared interpreter of `Model/Topo.lean` plus
+* `{"op":"inv"}` - evaluates every conjunct of `Topo.Inv` (Proofs/Lemmas/TopoInv.lean) on the current model state;
+* `{"op":"covered","call":{…}}` - reads the request of a building call as a `TopoOp` (same argument extraction as
+  `TopoRun.step`) and evaluates the guards `C07.CoveredS` / `C07.CoveredD` of the history theorems (Proofs/C07.lean, no Mathlib)
+  and `InvS` / `InvD` in the current state, i.e. before the call. -/
+open Lean FimVerif FimVerif.Proto FimVerif.Topo FimVerif.TopoRun
 
-def stepC07 (s : FimVerif.Topo.Topo) (j : Json) : FimVerif.Topo.Topo × Json :=
-  if FimVerif.TopoRun.getStr j "op" == "inv" then
-    (s, ok (Json.mkObj ((FimVerif.Topo.verdicts s).map (fun p => (p.1, Json.bool p.2)))))
+def opOfJson (j : Json) : Option TopoOp :=
+  let op := getStr j "op"
+  let fl := flOf j
+  let u := getNat j "u"
+  let ifa := ifArg ((j.getObjVal? "if").toOption.getD Json.null)
+  if op == "add_node" then some (.addNode fl u ⟨getStr j "name", optNid j "nid", optStr j "site", optStr j "ntype", propArgs j "props"⟩)
+  else if op == "add_component" then
+    some (.addComponent fl u (nidOfString (getStr j "parent"))
+      ⟨getStr j "name", optNid j "nid", optStr j "ctype", optStr j "model", optNid j "ns_nid",
+       (getArr j "if_nids").map (·.filterMap (fun x => x.getStr?.toOption.map nidOfString)),
+       (j.getObjValAs? Nat "n_labels").toOption, propArgs j "props"⟩)
+  else if op == "add_storage" then
+    some (.addStorage fl u (nidOfString (getStr j "parent")) (getStr j "name") (optNid j "nid") (propArgs j "props"))
+  else if op == "node_add_service" then some (.nodeAddService fl u (nidOfString (getStr j "parent")) (svcArgs j))
+  else if op == "add_service" then some (.addService fl u (svcArgs j))
+  else if op == "add_link" then
+    some (.addLink fl u (getStr j "name") (optNid j "nid") (optStr j "ltype") (ifArgs j "ifs") (optStr j "tech") (propArgs j "props"))
+  else if op == "ns_add_interface" then
+    some (.nsAddInterface fl u (nidOfString (getStr j "svc")) (cacheOf j "cache") (getStr j "name") (optNid j "nid") (optStr j "itype")
+      (propArgs j "props"))
+  else if op == "ns_remove_interface" then some (.nsRemoveInterface fl (nidOfString (getStr j "svc")) (getStr j "name"))
+  else if op == "connect" then some (.connect fl u (nidOfString (getStr j "svc")) (cacheOf j "cache") ifa)
+  else if op == "disconnect" then some (.disconnect (cacheOf j "cache") ifa)
+  else if op == "add_facility" then
+    some (.addFacility fl u (getStr j "name") (optNid j "nid") (optStr j "site") (optStr j "nstype") (propArgs j "nsprops")
+      (facIfs j "ifs") (propArgs j "props"))
+  else if op == "add_switch" then
+    some (.addSwitch fl u (getStr j "name") (optNid j "nid") (optStr j "site") (optStr j "nstype") (propArgs j "nsprops")
+      (portSpecs j "ports"))
+  else if op == "remove_node" then some (.removeNode (getStr j "name"))
+  else if op == "remove_facility" then some (.removeFacility (getStr j "name"))
+  else if op == "remove_switch" then some (.removeSwitch (getStr j "name"))
+  else if op == "remove_link" then some (.removeLink (getStr j "name"))
+  else if op == "remove_service" then some (.removeService (getStr j "name"))
+  else if op == "node_remove_service" then some (.nodeRemoveService (nidOfString (getStr j "parent")) (getStr j "name"))
+  else if op == "remove_component" then some (.removeComponent (nidOfString (getStr j "parent")) (getStr j "name"))
+  else if op == "set_props" then some (.setProps (nidOfString (getStr j "nid")) (propArgs j "props"))
+  else if op == "unset_prop" then some (.unsetProp (nidOfString (getStr j "nid")) (optStr j "gname"))
+  else if op == "rename" then some (.rename (clsOf (getStr j "kind")) (nidOfString (getStr j "nid")) (getStr j "name"))
+  else none
+
+def stepC07 (s : Topo) (j : Json) : Topo × Json :=
+  let op := getStr j "op"
+  if op == "inv" then
+    (s, ok (Json.mkObj ((verdicts s ++ [("invS", decide (InvS s))]).map (fun p => (p.1, Json.bool p.2)))))
+  else if op == "covered" then
+    match opOfJson ((j.getObjVal? "call").toOption.getD Json.null) with
+    | none => (s, err "bad-call")
+    | some o =>
+      (s, ok (Json.mkObj [("coveredD", Json.bool (decide (FimVerif.C07.CoveredD s o))), ("coveredS", Json.bool (decide (FimVerif.C07.CoveredS s o))),
+                          ("invD", Json.bool (decide (InvD s))), ("invS", Json.bool (decide (InvS s)))]))
   else FimVerif.TopoRun.step s j
 
 def main : IO Unit := runState FimVerif.Topo.Topo.empty stepC07
